@@ -796,32 +796,40 @@ inductive DurRes
   | ok (d : Int) | err | unmodelled
   deriving DecidableEq, Repr
 
-/-- The loop of `ParseDuration` (magnitude in ns accumulated in `d`). -/
+/-- a byte that can start a number: `[0-9.]` -/
+def isNumChar (c : UInt8) : Bool := c = 46 || (48 ≤ c && c ≤ 57)
+
+/-- `(\.[0-9]*)?`: the digits after the point, the rest, whether there was a point. -/
+def splitFrac (s1 : Bytes) : Bytes × Bytes × Bool :=
+  match s1 with
+  | 46 :: r => (r.takeWhile isDigitB, r.dropWhile isDigitB, true)
+  | r => ([], r, false)
+
+/-- The loop of `ParseDuration` (magnitude in ns accumulated in `d`).
+`some none` = error, `none` = declined (a non-zero fraction: float arithmetic). -/
 def parseDurLoop : Nat → Bytes → Nat → Option (Option Nat)
   | 0, _, _ => some none
   | fuel + 1, s, d =>
     match s with
     | [] => some (some d)
     | c :: _ =>
-      if !(c = 46 || (48 ≤ c && c ≤ 57)) then some none
+      if !isNumChar c then some none
       else match leadingInt s 0 with
         | none => some none
         | some (v, s1) =>
           let pre := s1.length != s.length
-          let (fracDigits, s2, hasDot) := match s1 with
-            | 46 :: r => (r.takeWhile isDigitB, r.dropWhile isDigitB, true)
-            | r => ([], r, false)
-          let post := hasDot && !fracDigits.isEmpty
+          let fr := splitFrac s1
+          let post := fr.2.2 && !fr.1.isEmpty
           if !pre && !post then some none
           else
-            let u := s2.takeWhile (fun c => !(c = 46 || (48 ≤ c && c ≤ 57)))
-            let s3 := s2.dropWhile (fun c => !(c = 46 || (48 ≤ c && c ≤ 57)))
+            let u := fr.2.1.takeWhile (fun c => !isNumChar c)
+            let s3 := fr.2.1.dropWhile (fun c => !isNumChar c)
             if u.isEmpty then some none
             else match unitOf u with
               | none => some none
               | some unit =>
                 if v > 9223372036854775808 / unit then some none
-                else if fracDigits.any (· != 48) then none -- float arithmetic: declined
+                else if fr.1.any (· != 48) then none
                 else
                   let d' := d + v * unit
                   if d' > 9223372036854775808 then some none else parseDurLoop fuel s3 d'
